@@ -493,6 +493,12 @@ CH_DEFAULTS = dict(clock_period=1, min_duration=1, max_duration=int(1e8), mod_ba
 EOM_DEFAULTS = dict(multiple_beam_control=True, custom_buffer_time=None, blue_shift_coeff=1.0, red_shift_coeff=1.0)
 
 
+# parameters that cannot change the timeline of a replay that succeeds (Properties/C18.lean timing_congr:
+# they are outside `timingFields`); a difference in them is never what a strict-identical failure is about
+LIMIT_ONLY = {"max_duration", "max_targets", "max_amp", "max_abs_detuning", "min_avg_amp", "bottom_detuning",
+              "total_bottom_detuning", "propagation_dir"}
+
+
 def spec_index(dev: Dev, sch) -> tuple[str, int]:
     """('dmm'|'ch', index in the spec) of the device channel a declared channel sits on."""
     if isinstance(sch.channel_obj, DMM):
@@ -504,24 +510,34 @@ def matched_diffs(old_dev: Dev, old, new_dev: Dev, new) -> list:
     """Spec parameters in which a declared channel's old and new device channel differ, as edits of
     the new spec that would remove the difference: [(edit, parameter name)]."""
     out = []
-    for s0, s1 in zip(old._schedule.values(), new._schedule.values()):
+    active = set()
+    for c in list(old._calls[1:]) + list(old._to_build_calls):
+        if c.name == "enable_eom_mode":
+            active.add(c.kwargs.get("channel", c.args[0] if c.args else None))
+    for (n0, s0), s1 in zip(old._schedule.items(), new._schedule.values()):
         k0, i = spec_index(old_dev, s0)
         k1, j = spec_index(new_dev, s1)
         if k0 != k1:
             continue
         c0 = (old_dev.spec["dmms"] if k0 == "dmm" else old_dev.spec["channels"])[i]
         c1 = (new_dev.spec["dmms"] if k1 == "dmm" else new_dev.spec["channels"])[j]
+        o0, o1 = s0.channel_obj, s1.channel_obj
         for f, dflt in CH_DEFAULTS.items():
             v0, v1 = c0.get(f, dflt), c1.get(f, dflt)
+            if f == "custom_phase_jump_time" and o0.phase_jump_time == o1.phase_jump_time:
+                continue   # (only the effective phase_jump_time is read)
             if v0 != v1 and not (f == "propagation_dir" and (v0 is None) == (v1 is None) and list(v0 or []) == list(v1 or [])):
                 out.append(((k1, j, f, v0), f))
-        if k0 == "ch":
+        if k0 == "ch" and n0 in active:   # (the EOM configuration of a channel that never enables it is not read)
             e0, e1 = c0.get("eom"), c1.get("eom")
             if bool(e0) != bool(e1):
                 out.append((("eom", j, "__add__", e0) if e0 else ("eom", j, "__remove__", None), "eom_config"))
             elif e0 and e1:
                 for f in sorted(set(e0) | set(e1)):
                     v0, v1 = e0.get(f, EOM_DEFAULTS.get(f)), e1.get(f, EOM_DEFAULTS.get(f))
+                    if f == "custom_buffer_time" and o0._eom_buffer_time == o1._eom_buffer_time \
+                            and bool(v0) == bool(v1):
+                        continue   # (only the effective buffer time and its truth value are read)
                     if v0 != v1:
                         out.append((("eom", j, f, v0), "eom_config." + f))
     # the same difference may be listed for several declared channels on one device channel
@@ -625,9 +641,17 @@ def check_device_switch(rs: RealSeq, new_spec: dict, strict: bool, edits: list, 
     # device channel (the search may have matched another channel than the edited one)
     mdiffs = matched_diffs(rs.dev, seq, nd, new)
     res.info["mdiffs"] = mdiffs
-    pnames = sorted({nme for _, nme in mdiffs})
+    pnames = sorted({nme for _, nme in mdiffs if nme not in LIMIT_ONLY})
     pkey = "+".join(pnames) or param_key(edits)
     pclass = "eom-options" if pnames and set(pnames) <= EOM_OPTION_PARAMS else "other"
+    # several parameters differ and all of them belong to the uncovered ones (pinned by `strict_sound`,
+    # or covered by the sample comparison only): the failure is attributed to the first of them
+    unc = uncovered_params()
+    if len(pnames) > 1 and set(pnames) <= set(unc) | EOM_OPTION_PARAMS | {"eom_config.custom_buffer_time"}:
+        for cand in unc + ["eom_config.custom_buffer_time"]:
+            if cand in pnames:
+                pkey = cand
+                break
     cause = "dmm-renamed" if dmm_renamed(seq, new) else "params"
     if "tl" not in base_obs:
         base_obs["tl"] = timeline(seq)
@@ -842,17 +866,25 @@ def shrink(case: dict, sig: tuple) -> dict:
                         e = cand[k]
         # reduce the difference between matched channels: give the new channel the old value of a
         # parameter whenever the failure survives it
-        for _ in range(4):
+        for _ in range(30):
             try:
                 md = run_case(cur).info.get("mdiffs", [])
             except Exception:  # noqa: BLE001
                 md = []
             progress = False
             for e, _nme in md:
-                cand = cur["edits"] + [tuple(e)]
-                if fails(dict(cur, edits=cand)):
-                    cur["edits"] = cand
+                cand = dict(cur, edits=cur["edits"] + [tuple(e)])
+                # accepted only when the failure survives and the difference really shrinks (the
+                # search may answer an edit by matching another channel)
+                try:
+                    r2 = run_case(cand)
+                except Exception:  # noqa: BLE001
+                    continue
+                if any(fail_sig(x) == sig for x in r2.fails) and len(r2.info.get("mdiffs", md)) < len(md):
+                    cur["edits"] = cand["edits"]
+                    md = r2.info.get("mdiffs", [])
                     progress = True
+                    break
             if not progress:
                 break
         cur["ops"] = _ddmin(cur["ops"], lambda ops: fails(dict(cur, ops=ops)), 100)
@@ -945,6 +977,15 @@ def expected_missing() -> list[str]:
 
 # real attribute named by the table -> the constructor parameter a device pair differs in
 MISSING_TO_PARAM = {"phase_jump_time": "custom_phase_jump_time", "min_duration": "min_duration"}
+_UNCOVERED: list[str] | None = None
+
+
+def uncovered_params() -> list[str]:
+    """Constructor parameters behind the timing parameters pinned as uncovered by `strict_sound`."""
+    global _UNCOVERED
+    if _UNCOVERED is None:
+        _UNCOVERED = sorted(MISSING_TO_PARAM.get(m, m) for m in expected_missing())
+    return _UNCOVERED
 
 
 # ======================================================================================
